@@ -6,6 +6,7 @@ import (
 	"fmt"
 	"io"
 	"math/rand"
+	"regexp"
 
 	"simrt"
 	"verif/sim/model"
@@ -70,8 +71,12 @@ func errCode(err error) string {
 	if e, ok := err.(interface{ ErrorCode() gofakes3.ErrorCode }); ok {
 		return string(e.ErrorCode())
 	}
-	return "error:" + err.Error()
+	// not an S3 error: the text, without file names (a change may name its
+	// scratch files after a process-wide counter, which is not part of a run)
+	return "error:" + pathToken.ReplaceAllString(err.Error(), "<path>")
 }
+
+var pathToken = regexp.MustCompile(`\S*/\S*`)
 
 // execAPI drives the Go Backend interface directly.
 func (r *Run) execAPI(op *Op) {
